@@ -227,4 +227,5 @@ def run(ctx):
 def evidence_extra(agg):
     grid = {k[5:]: v for k, v in agg["counters"].items() if k.startswith("grid|")}
     acc = {k: v for k, v in grid.items() if k.endswith("ACCEPTED")}
-    return {"grid_cells": len(grid), "grid_cells_accepting_misaligned_input": len(acc), "grid": dict(sorted(grid.items())[:600])}
+    return {"evaluations": int(agg["counters"].get("perturbed_calls", 0) + agg["counters"].get("aligned_calls_returned", 0)), "datasets": agg["n_eval"],
+            "grid_cells": len(grid), "grid_cells_accepting_misaligned_input": len(acc), "grid": dict(sorted(grid.items())[:600])}
